@@ -6,12 +6,12 @@ import (
 	"context"
 
 	"github.com/cosi-project/runtime/pkg/resource"
-	"github.com/cosi-project/runtime/pkg/state"
-	"github.com/cosi-project/runtime/zzverif/verif"
 	"github.com/cosi-project/runtime/pkg/resource/meta"
 	"github.com/cosi-project/runtime/pkg/resource/meta/spec"
 	"github.com/cosi-project/runtime/pkg/resource/protobuf"
 	"github.com/cosi-project/runtime/pkg/resource/typed"
+	"github.com/cosi-project/runtime/pkg/state"
+	"github.com/cosi-project/runtime/zzverif/verif"
 )
 
 const (
@@ -80,8 +80,8 @@ func NewAt(ns resource.Namespace, typ resource.Type, id resource.ID, s string) *
 
 // Counting wraps a CoreState and counts/logs every call that reaches it.
 type Counting struct {
-	Inner state.CoreState
-	Calls int
+	Inner  state.CoreState
+	Calls  int
 	Writes int
 }
 
@@ -130,8 +130,8 @@ func (c *Counting) WatchKindAggregated(ctx context.Context, k resource.Kind, ch 
 
 // Write is one committed change of the store.
 type Write struct {
-	Actor  string // "caller" or "env"
-	Kind   string // create | update | destroy
+	Actor  string            // "caller" or "env"
+	Kind   string            // create | update | destroy
 	Before resource.Resource // nil if absent
 	After  resource.Resource // nil if destroyed
 }
